@@ -157,12 +157,76 @@ def _frame_arrays(es, sorts):
     return out
 
 
-def instantiate(hyps, goal, rounds=1, max_terms=12, extra=()):
+def _trigger_keys(q):
+    """for every bound variable of the universal q: the (symbol, argument position) places where it occurs directly as an argument
+    of an array read or an uninterpreted function whose other context is ground -- the places an E-matcher would look at"""
+    nv = q.num_vars()
+    keys = {k: set() for k in range(nv)}
+
+    def ground(e, depth=0):
+        if z3.is_var(e):
+            return False
+        if z3.is_quantifier(e):
+            return False
+        return all(ground(c) for c in e.children())
+
+    def walk(e):
+        if z3.is_quantifier(e) or z3.is_var(e):
+            return
+        if z3.is_app(e):
+            kd = e.decl().kind()
+            ch = e.children()
+            if kd == z3.Z3_OP_SELECT and ground(ch[0]):
+                for pos, c in enumerate(ch[1:], 1):
+                    if z3.is_var(c):
+                        keys[nv - 1 - z3.get_var_index(c)].add(('sel', ch[0].get_id(), pos))
+            elif kd == z3.Z3_OP_UNINTERPRETED and ch:
+                for pos, c in enumerate(ch):
+                    if z3.is_var(c):
+                        keys[nv - 1 - z3.get_var_index(c)].add(('fn', e.decl().name(), pos))
+            for c in ch:
+                walk(c)
+    walk(q.body())
+    return keys
+
+
+def _occurrences(es):
+    """ground argument terms by (symbol, position), from ground formulas"""
+    occ, seen = {}, set()
+
+    def ground(e):
+        if z3.is_var(e) or z3.is_quantifier(e):
+            return False
+        return all(ground(c) for c in e.children())
+
+    def walk(e):
+        if e.get_id() in seen or z3.is_quantifier(e) or z3.is_var(e):
+            return
+        seen.add(e.get_id())
+        if z3.is_app(e):
+            kd = e.decl().kind()
+            ch = e.children()
+            if kd == z3.Z3_OP_SELECT:
+                for pos, c in enumerate(ch[1:], 1):
+                    if ground(c) and ground(ch[0]):
+                        occ.setdefault(('sel', ch[0].get_id(), pos), []).append(c)
+            elif kd == z3.Z3_OP_UNINTERPRETED and ch:
+                for pos, c in enumerate(ch):
+                    if ground(c):
+                        occ.setdefault(('fn', e.decl().name(), pos), []).append(c)
+            for c in ch:
+                walk(c)
+    for e in es:
+        walk(e)
+    return occ
+
+
+def instantiate(hyps, goal, rounds=1, max_terms=12, extra=(), triggers=False):
     g, sk = skolemize(goal)
     pre = _snf(list(hyps) + [z3.Not(g)])
     qf, qs = _split_hyps(pre)
     facts = list(qf)
-    if len(qs) <= 12:
+    if len(qs) <= 12 and not triggers:
         max_terms = max(max_terms, 26)       # small (local) proofs: saturate generously
     # index candidates next to the goal's skolem constants (array-property-fragment index set: t, t+1, t-1)
     offs = []
@@ -208,8 +272,39 @@ def instantiate(hyps, goal, rounds=1, max_terms=12, extra=()):
                     if all(not z3.eq(e, x) for x in terms.setdefault(sn, [])) and len(terms[sn]) < max_terms + 6:
                         terms[sn].append(e)
         new = []
+        occ = _occurrences(goal_first + facts + inst_qf) if triggers else None
         for q in list(qs):
             cands = [terms.get(str(q.var_sort(k)), []) for k in range(q.num_vars())]
+            if triggers:
+                # trigger-directed candidates first: ground terms standing where the bound variable stands in the quantifier body
+                tk = _trigger_keys(q)
+                for k in range(q.num_vars()):
+                    pri, ids = [], set()
+                    for key in tk[k]:
+                        for t in occ.get(key, []):
+                            if t.get_id() not in ids and t.sort() == q.var_sort(k):
+                                ids.add(t.get_id())
+                                pri.append(t)
+                    if len(pri) > 24 and sk:
+                        # many occurrences: those built from the goal's own skolem constants first
+                        skids = {c_.get_id() for c_ in sk}
+                        def score(t_):
+                            found, stack, seen_ = set(), [t_], set()
+                            while stack:
+                                x_ = stack.pop()
+                                if x_.get_id() in seen_:
+                                    continue
+                                seen_.add(x_.get_id())
+                                if x_.get_id() in skids:
+                                    found.add(x_.get_id())
+                                stack.extend(x_.children())
+                            return (-len(found), len(seen_))
+                        pri.sort(key=score)
+                    gen_ = [t for t in cands[k] if t.get_id() not in ids]
+                    if sk:
+                        skids_ = {c_.get_id() for c_ in sk}
+                        gen_.sort(key=lambda t_: 0 if t_.get_id() in skids_ else 1)       # the goal's own skolem constants before other generic terms
+                    cands[k] = pri[:24] + gen_[:max(6, max_terms - len(pri[:24]))]
             total = 1
             for c in cands:
                 total *= max(1, len(c))
@@ -330,7 +425,7 @@ def _model_values(s, want):
     return out
 
 
-DEFAULT_STRATEGIES = tuple(os.environ.get('VERIF_STRATEGIES', 'z3quick,inst,cli,z3,inst2').split(','))
+DEFAULT_STRATEGIES = tuple(os.environ.get('VERIF_STRATEGIES', 'z3quick,inst,cli,tinst,z3,inst2').split(','))
 
 
 def decide(axioms, vc, budget_s, pins=None, want=None, strategies=None, seed=0):
@@ -351,10 +446,10 @@ def decide(axioms, vc, budget_s, pins=None, want=None, strategies=None, seed=0):
         if left < 0.3:
             break
         try:
-            if strat in ('inst', 'inst2', 'inst3'):
-                rounds, mt = {'inst': (1, 10), 'inst2': (2, 12), 'inst3': (3, 10)}[strat]
-                facts = instantiate(hyps, vc.goal, rounds=rounds, max_terms=mt, extra=vc.hints)
-                r, s = _check(facts, left * 1000 * (0.25 if strat == 'inst' else 0.6))
+            if strat in ('inst', 'inst2', 'inst3', 'tinst'):
+                rounds, mt = {'inst': (1, 10), 'inst2': (2, 12), 'inst3': (3, 10), 'tinst': (3, 8)}[strat]
+                facts = instantiate(hyps, vc.goal, rounds=rounds, max_terms=mt, extra=vc.hints, triggers=(strat == 'tinst'))
+                r, s = _check(facts, min(left * 0.25, 6.0) * 1000 if strat in ('inst', 'tinst') else left * 1000 * 0.6)
                 if r != 'unsat' and any('*' in f.sexpr() for f in facts[:400]):
                     r2, s2 = _check(abstract_nl(facts), left * 1000 * 0.25)      # same instances with products made opaque
                     if r2 == 'unsat':
